@@ -427,6 +427,12 @@ def corr_core(prop, parts):
         cs.append(_corr_generic("bincases", prop, BIN_MODEL_TEXT, 25, 250, shards_quick=4, shards_thorough=16))
     if "func" in parts:
         cs.append(_corr_generic("funccases", prop, FUNC_MODEL_TEXT, 25, 250, shards_quick=4, shards_thorough=16))
+    if "tree" in parts:
+        cs.append(_corr_generic("treecases", prop, "Trees.jrun - the composite model: sharded, batched selectors, joins with their reused tables, "
+                                "per-sample operators, count tables - evaluated inside Coq on whole nested queries (depth up to 4: "
+                                "+ - and the comparisons with on/ignoring/group_left/group_right/bool, unary minus, abs, arithmetic and "
+                                "comparisons with a literal, count by/without) vs the engine's result; values are multiples of 1/4 "
+                                "carried as integers", 30, 300, shards_quick=8, shards_thorough=16))
     if "agg" in parts:
         cs.append(_corr_generic("aggcases", prop, "Agg.group_labels / assign_groups / aggregate (count table) + Select.select_step vs the engine "
                                 "on count by/without (labels) (selector)", 10, 100, shards_quick=8, shards_thorough=16))
@@ -456,14 +462,14 @@ def check_C07(tier, seed, replay=None):
     return ref_family_check("C07", tier, seed,
                             [("instants", "nostartend", 1500), ("instants", "range", 400), ("instants", "epoch:nostartend", 300)],
                             [("instants", "nostartend", 30000), ("instants", "range", 8000), ("instants", "agg", 8000), ("instants", "epoch:nostartend", 8000)],
-                            corr=corr_core("C07", ("sel", "bin")))
+                            corr=corr_core("C07", ("sel", "bin", "tree")))
 
 
 def check_C11(tier, seed, replay=None):
     return ref_family_check("C11", tier, seed,
                             [("procs", "", 500), ("perm", "noties", 1500), ("procs", "selector", 300)],
                             [("procs", "", 8000), ("perm", "noties", 30000), ("procs", "selector", 5000), ("procs", "agg", 4000)],
-                            corr=corr_core("C11", ("sel", "bin")))
+                            corr=corr_core("C11", ("sel", "bin", "tree")))
 
 
 def check_C19(tier, seed, replay=None):
@@ -476,7 +482,7 @@ def check_C19(tier, seed, replay=None):
 def check_C01(tier, seed, replay=None):
     return ref_family_check("C01", tier, seed, [("", 5000), ("deep", 2000), ("noties", 1500), ("epoch:", 800)],
                             [("", 100000), ("deep", 40000), ("noties", 30000), ("func", 20000), ("bin", 20000), ("agg", 20000), ("range", 20000), ("epoch:", 20000), ("epoch:deep", 10000)],
-                            corr=corr_core("C01", ("sel", "bin", "func", "agg")))
+                            corr=corr_core("C01", ("sel", "bin", "func", "agg", "tree")))
 
 
 def check_C04(tier, seed, replay=None):
